@@ -16,7 +16,14 @@
   * References are transparent (`&e`, `*e` evaluate like `e`); `&mut e` has no rule, except for the
     implicit reborrow of the receiver of a `&mut self` method, which is written back after the call.
   * Recursion is on a fuel counter (decreasing along the depth of the evaluation, not its length), so
-    that every equation of the interpreter unfolds by `simp`/`rfl` on a concrete program.
+    that every equation of the interpreter unfolds by `simp`/`rfl` on a concrete program.  A loop
+    spends ONE unit of fuel per iteration (its condition, its body and the rest of the loop run on the
+    remaining fuel), so `k` iterations of a body of depth `d` need fuel `k + d + O(1)`
+    (`Proofs/RsLoop.lean`).
+  * Effects and inputs: the core has none.  A dictionary (`Ext`, part 2.8) may give rules for calls,
+    methods, paths, macros, `*p`, field reads and casts that the built-in dictionary has NO rule for; an
+    effectful rule reads the next environment input `inp st.pos`, advances `st.pos` and appends an event
+    to `st.log` (`St.input`, `St.emit`).  With `Ext.none` nothing outside parts 2 and 3 has a rule.
 
   Import-free apart from the model files (core Lean only).
 -/
@@ -61,12 +68,20 @@ inductive Value
   | writer
   /-- a value nothing is known about except where it came from (`format!(..)`) -/
   | opaque (what : String)
+  /-- an object of an extension dictionary (`Ext`): an atomic cell handle, a raw pointer to a named
+      location, a channel endpoint, an `Instant`, a file ... The core has no rule that produces or
+      inspects one; it only moves it around. -/
+  | ext (tag : String) (args : List Value)
+  /-- array / `Vec` / slice -/
+  | list (vs : List Value)
 deriving Repr, Inhabited
 
-/-- local variables (innermost first; `self` is the variable `"self"`) and the effect log -/
+/-- local variables (innermost first; `self` is the variable `"self"`), the effect log, and the number
+    of environment inputs consumed so far -/
 structure St where
   env : List (String × Value)
   log : List Value
+  pos : Nat := 0
 deriving Repr, Inhabited
 
 inductive Res
@@ -76,6 +91,10 @@ inductive Res
   | ret (v : Value) (st : St)
   | panic
   | stuck (msg : String)
+  /-- a `break` (`break v`; `()` without operand) on its way to the innermost loop -/
+  | brk (v : Value) (st : St)
+  /-- a `continue` on its way to the innermost loop -/
+  | cont (st : St)
 deriving Repr, Inhabited
 
 /-- sequencing: continue with `k` after a normal completion, propagate everything else -/
@@ -85,14 +104,48 @@ def Res.bind (r : Res) (k : Value → St → Res) : Res :=
   | .ret v st => .ret v st
   | .panic => .panic
   | .stuck m => .stuck m
+  | .brk v st => .brk v st
+  | .cont st => .cont st
 
-/-- continue after a normal completion (`kv`) or a `return` (`kr`) -/
+/-- at a function (or closure) boundary: continue after a normal completion (`kv`) or a `return`
+    (`kr`); a `break`/`continue` that arrives here is not inside a loop of this function (does not
+    compile): no rule -/
 def Res.on (r : Res) (kv kr : Value → St → Res) : Res :=
   match r with
   | .val v st => kv v st
   | .ret v st => kr v st
   | .panic => .panic
   | .stuck m => .stuck m
+  | .brk _ _ => .stuck "break outside of a loop"
+  | .cont _ => .stuck "continue outside of a loop"
+
+/-- apply `f` to the state a result carries -/
+def Res.mapSt (r : Res) (f : St → St) : Res :=
+  match r with
+  | .val v st => .val v (f st)
+  | .ret v st => .ret v (f st)
+  | .panic => .panic
+  | .stuck m => .stuck m
+  | .brk v st => .brk v (f st)
+  | .cont st => .cont (f st)
+
+/-- what a loop does with the result of one run of its body: a normal completion or a `continue` goes
+    on with the next iteration (`next`), a `break v` ends the loop with value `v`, everything else
+    (`return`, panic, stuck) propagates -/
+def Res.loopNext (r : Res) (next : St → Res) : Res :=
+  match r with
+  | .val _ st => next st
+  | .cont st => next st
+  | .brk v st => .val v st
+  | .ret v st => .ret v st
+  | .panic => .panic
+  | .stuck m => .stuck m
+
+/-- the first of two rules that applies -/
+def firstRule (a : Option Res) (b : Res) : Res :=
+  match a with
+  | some r => r
+  | none => b
 
 /-- `none` ⇒ panic -/
 def orPanic {α : Type} (o : Option α) (k : α → Res) : Res :=
@@ -106,7 +159,69 @@ def orStuck {α : Type} (msg : String) (o : Option α) (k : α → Res) : Res :=
   | none => .stuck msg
   | some a => k a
 
-/-- what is fixed during a run: the generated tables and the environment input -/
+/-- what a rule of an extension dictionary may read of the context -/
+structure Inputs where
+  /-- the i-th value the environment returns (an atomic load's result, a clock reading, a reply from
+      a channel or a socket ...) -/
+  inp : Nat → Value
+  /-- CLOCK_REALTIME at the call of `SystemTime::elapsed`, ns since the epoch -/
+  nowNs : Int
+  /-- `size_of::<T>()` of the `#[repr(C)]` structs, supplied by the statement -/
+  sizes : List (String × Nat)
+
+/-- consume the next environment input: the value, and the state with `pos` advanced and the event
+    `ev value` appended to the log.  THE way an effectful dictionary rule reads an input. -/
+def St.input (w : Inputs) (st : St) (ev : Value → Value) : Value × St :=
+  (w.inp st.pos, { st with pos := st.pos + 1, log := st.log ++ [ev (w.inp st.pos)] })
+
+/-- append an event to the log (an effect that returns nothing the program can observe) -/
+def St.emit (st : St) (e : Value) : St := { st with log := st.log ++ [e] }
+
+/-- An extension dictionary: rules for what the built-in dictionary (part 2) has no rule for.  Each hook
+    is consulted only AFTER the built-in rules (and the generated tables) found nothing, so a dictionary
+    cannot change the meaning of anything that has a meaning without it; `none` = no rule (stuck).
+    The two exceptions, both `none` in `Ext.none`, refine a built-in ASSUMPTION rather than a rule:
+    `litFallback` and `errFrom`. -/
+structure Ext where
+  /-- call of a path that is neither a library function of part 2.6, nor an enum constructor, nor in
+      `fns`; the name is `canon` of the path (its last two segments) -/
+  call : Inputs → String → List Value → St → Option Res
+  /-- method call on a value for which part 2.6 has no rule and `fns` no method -/
+  method : Inputs → Value → String → List Value → St → Option Res
+  /-- a path that is not a local variable, a constant, a field-less enum variant or a path of part 2.3 -/
+  path : String → Option Value
+  /-- a macro part 2.7 has no rule for; the arguments are evaluated when the token text parsed as
+      expressions (`Expr.macroArgs`), else the list is empty -/
+  macroCall : Inputs → String → List Value → St → Option Res
+  /-- `*p` on a `Value.ext` (on every other value `*` is transparent) -/
+  deref : Inputs → Value → St → Option Res
+  /-- field read on a value part 2.4 has no field rule for -/
+  fieldOf : Value → String → Option Value
+  /-- `v as ty` where part 2.5 has no rule -/
+  cast : Inputs → String → Value → St → Option Res
+  /-- Rust types an integer variable that is constrained by nothing but unsuffixed literals as `i32`.
+      The interpreter cannot see whether that is the case; with `some t` an operator applied to two
+      integers of unknown type is computed at type `t` (the dictionary asserts that, in the functions it is
+      used for, such operands are statically unconstrained), with `none` it is stuck. -/
+  litFallback : Option IntTy
+  /-- `e?` on `Err(x)` returns `Err(From::from(x))`.  The built-in assumption is that this `from` is the
+      identity (same error type).  `errFrom ret x` (with `ret` the declared return type of the enclosing
+      function) may give the converted error instead; `none` = identity. -/
+  errFrom : String → Value → Option Value
+
+/-- the empty dictionary -/
+def Ext.none : Ext where
+  call := fun _ _ _ _ => Option.none
+  method := fun _ _ _ _ _ => Option.none
+  path := fun _ => Option.none
+  macroCall := fun _ _ _ _ => Option.none
+  deref := fun _ _ _ => Option.none
+  fieldOf := fun _ _ => Option.none
+  cast := fun _ _ _ _ => Option.none
+  litFallback := Option.none
+  errFrom := fun _ _ => Option.none
+
+/-- what is fixed during a run: the generated tables, the environment inputs, the extension dictionary -/
 structure Ctx where
   fns : List (String × FnDecl)
   consts : List (String × Expr)
@@ -117,11 +232,21 @@ structure Ctx where
   enums : List (String × List (String × Nat))
   /-- CLOCK_REALTIME at the call of `SystemTime::elapsed`, ns since the epoch -/
   nowNs : Int
+  /-- field-less enum ↦ discriminants -/
+  enumDiscr : List (String × List (String × Int)) := []
+  /-- type name ↦ `size_of::<T>()` (supplied by the statement; nothing is built in) -/
+  sizes : List (String × Nat) := []
+  /-- the i-th environment input -/
+  inp : Nat → Value := fun _ => .unit
+  ext : Ext := Ext.none
 
-/-- per function: file stem (for free functions and constants) and `Self` -/
+def Ctx.inputs (ctx : Ctx) : Inputs := ⟨ctx.inp, ctx.nowNs, ctx.sizes⟩
+
+/-- per function: file stem (for free functions and constants), `Self`, declared return type -/
 structure Frame where
   module : String
   selfTy : String
+  ret : String := ""
 
 /-! ## 2. Dictionary of primitives -/
 
@@ -160,6 +285,17 @@ def IntTy.signed : IntTy → Bool
 /-- number of values of the type (2^bits) -/
 def IntTy.card (t : IntTy) : Int := t.hi - t.lo + 1
 
+/-- width in bits (64-bit target) -/
+def IntTy.bits : IntTy → Nat
+  | .i8 | .u8 => 8 | .i16 | .u16 => 16 | .i32 | .u32 => 32 | .i64 | .u64 | .isize | .usize => 64
+  | .i128 | .u128 => 128
+  | .infer => 0
+
+/-- the unsigned type of the same width (`abs_diff` returns it) -/
+def IntTy.toUnsigned : IntTy → IntTy
+  | .i8 => .u8 | .i16 => .u16 | .i32 => .u32 | .i64 => .u64 | .i128 => .u128 | .isize => .usize
+  | t => t
+
 /-- Both operands of a binary integer operator have the same type; an unsuffixed literal takes the
     type of the other operand. Two different concrete types do not type-check in Rust: no rule. -/
 def IntTy.unify : IntTy → IntTy → Option IntTy
@@ -176,6 +312,17 @@ def chkInt (t : IntTy) (v : Int) (st : St) : Res :=
 
 /-- `x as T` between integer types: two's-complement wrap-around to the target width. -/
 def wrapInt (t : IntTy) (v : Int) : Int := (v - t.lo) % t.card + t.lo
+
+/-- `saturating_*`: clamp to the range of the type -/
+def clampInt (t : IntTy) (v : Int) : Int := if v < t.lo then t.lo else if v > t.hi then t.hi else v
+
+/-- the bit pattern of `a` at type `t`, as a natural number below 2^bits (two's complement) -/
+def bitsOf (t : IntTy) (a : Int) : Nat := if t.signed = true then (a % t.card).toNat else a.toNat
+
+/-- `& | ^` on integers: bitwise on the two's-complement patterns.  For an unsigned type this is the
+    operation on the values themselves. -/
+def bitInt (f : Nat → Nat → Nat) (t : IntTy) (a b : Int) : Int :=
+  if t.signed = true then wrapInt t (f (bitsOf t a) (bitsOf t b)) else ((f a.toNat b.toNat : Nat) : Int)
 
 /-! ### 2.2 literals -/
 
@@ -255,6 +402,10 @@ def primPath : String → Option Value
   | "u32::MAX" => some (.int .u32 IntTy.u32.hi) | "u32::MIN" => some (.int .u32 0)
   | "i32::MAX" => some (.int .i32 IntTy.i32.hi) | "i32::MIN" => some (.int .i32 IntTy.i32.lo)
   | "u16::MAX" => some (.int .u16 IntTy.u16.hi) | "u16::MIN" => some (.int .u16 0)
+  | "u8::MAX" => some (.int .u8 IntTy.u8.hi) | "u8::MIN" => some (.int .u8 0)
+  | "usize::MAX" => some (.int .usize IntTy.usize.hi) | "usize::MIN" => some (.int .usize 0)
+  | "i16::MAX" => some (.int .i16 IntTy.i16.hi) | "i16::MIN" => some (.int .i16 IntTy.i16.lo)
+  | "i8::MAX" => some (.int .i8 IntTy.i8.hi) | "i8::MIN" => some (.int .i8 IntTy.i8.lo)
   | _ => none
 
 /-- `T::V` is a value (resp. a constructor taking `k` arguments) iff the translated files declare an
@@ -267,7 +418,36 @@ def enumArity (enums : List (String × List (String × Nat))) (selfTy : String) 
     | none => none
     | some vs => vs.lookup v
 
-/-- name under which the methods of a user-defined type are registered in `fns` -/
+/-- the enum of the generated tables that a variant path `T::V` belongs to -/
+def enumOfVariant (enums : List (String × List (String × Nat))) (p : String) : Option String :=
+  match enums with
+  | [] => none
+  | (t, vs) :: rest =>
+    match vs.any (fun v => t ++ "::" ++ v.1 == p) with
+    | true => some t
+    | false => enumOfVariant rest p
+
+/-- discriminant of a variant `T::V` of a field-less enum (table `enumDiscr`) -/
+def discrOf (tbl : List (String × List (String × Int))) (p : String) : Option Int :=
+  match tbl with
+  | [] => none
+  | (t, vs) :: rest =>
+    match vs.find? (fun v => t ++ "::" ++ v.1 == p) with
+    | some v => some v.2
+    | none => discrOf rest p
+
+/-- `size_of::<T>()`: the last path segment is `size_of<T>` (the translator drops the turbofish `::`);
+    the size comes from the table supplied by the statement -/
+def sizeOf (sizes : List (String × Nat)) (seg : String) : Option Nat :=
+  match sizes with
+  | [] => none
+  | (t, n) :: rest =>
+    match "size_of<" ++ t ++ ">" == seg with
+    | true => some n
+    | false => sizeOf rest seg
+
+/-- name under which the methods of a user-defined type are registered in `fns`: the two enums below
+    (a fast path), see `methodDecl` for the general case -/
 def userTypeName : Value → Option String
   | .struct n _ => some n
   | .enumv "ClockStatus::Unknown" _ | .enumv "ClockStatus::Synchronized" _
@@ -294,6 +474,8 @@ def typeName : Value → String
   | .systime _ => "SystemTime"
   | .writer => "W"
   | .opaque w => w
+  | .ext tag _ => tag
+  | .list _ => "[..]"
 
 /-! ### 2.4 environments, struct fields -/
 
@@ -377,6 +559,39 @@ def listGet : List Value → Nat → Option Value
   | v :: _, 0 => some v
   | _ :: rest, n + 1 => listGet rest n
 
+def listSet : List Value → Nat → Value → Option (List Value)
+  | [], _, _ => none
+  | _ :: rest, 0, w => some (w :: rest)
+  | v :: rest, n + 1, w => (listSet rest n w).map (v :: ·)
+
+/-- struct update syntax `S { f: v, ..base }`: the fields of `base`, the listed ones replaced -/
+def updateFields (base : List (String × Value)) : List (String × Value) → List (String × Value)
+  | [] => base
+  | (k, v) :: rest => updateFields (insertField k v base) rest
+
+/-- an assignment `place = v` where `v` is an integer literal of unknown type and the place holds an
+    integer of a known type: the literal takes that type (it is the variable's type; a literal out of
+    range does not compile: no rule) -/
+def adoptTy (old : Option Value) (v : Value) : Option Value :=
+  match old, v with
+  | some (.int t _), .int .infer a =>
+    if t = .infer then some v else if t.lo ≤ a ∧ a ≤ t.hi then some (.int t a) else none
+  | _, _ => some v
+
+/-- the integers `lo, lo+1, ..` below `hi` (resp. up to `hi`) at type `t`: what `for x in lo..hi` iterates over -/
+def intRange (t : IntTy) (lo hi : Int) : List Value :=
+  (List.range (hi - lo).toNat).map fun (k : Nat) => .int t (lo + (k : Int))
+
+/-- the items a `for` loop visits: the elements of an array / `Vec` / slice, or the integers of a range
+    (`lo..hi` is `Range { start, end }`, `lo..=hi` is `RangeInclusive`, as in std) -/
+def iterItems : Value → Option (List Value)
+  | .list vs => some vs
+  | .struct "Range" [("end", .int t2 hi), ("start", .int t1 lo)] =>
+    (IntTy.unify t1 t2).map fun t => intRange t lo hi
+  | .struct "RangeInclusive" [("end", .int t2 hi), ("start", .int t1 lo)] =>
+    (IntTy.unify t1 t2).map fun t => intRange t lo (hi + 1)
+  | _ => none
+
 /-! ### 2.5 operators -/
 
 def boolRes (p : Prop) [Decidable p] (st : St) : Res := .val (.bool (decide p)) st
@@ -402,7 +617,23 @@ def intBin (op : BinOp) (t : IntTy) (a b : Int) (st : St) : Res :=
   | .le => boolRes (a ≤ b) st
   | .gt => boolRes (a > b) st
   | .ge => boolRes (a ≥ b) st
+  -- `& | ^`: bitwise on the two's-complement patterns; they cannot overflow
+  | .bitAnd => if t = .infer then .stuck "arithmetic on integer literals of unknown type"
+               else .val (.int t (bitInt Nat.land t a b)) st
+  | .bitOr => if t = .infer then .stuck "arithmetic on integer literals of unknown type"
+              else .val (.int t (bitInt Nat.lor t a b)) st
+  | .bitXor => if t = .infer then .stuck "arithmetic on integer literals of unknown type"
+               else .val (.int t (bitInt Nat.xor t a b)) st
   | _ => .stuck "integer operator without a rule"
+
+/-- `a << b`, `a >> b`: the operand types need not agree; the result has the type of `a`.  With overflow
+    checks a shift amount that is negative or ≥ the bit width panics ("attempt to shift left with
+    overflow"); bits shifted out are lost (no panic); `>>` is arithmetic on signed types. -/
+def shiftInt (left : Bool) (t : IntTy) (a b : Int) (st : St) : Res :=
+  if t = .infer then .stuck "arithmetic on integer literals of unknown type"
+  else if b < 0 ∨ b ≥ t.bits then .panic
+  else if left then .val (.int t (wrapInt t (a * 2 ^ b.toNat))) st
+  else .val (.int t (a / 2 ^ b.toNat)) st
 
 /-- `f64` operators: IEEE-754 binary64, round to nearest even (`ClockBound.F64`). Infinities and NaN
     are not modelled: a zero divisor has no rule. -/
@@ -450,6 +681,10 @@ def durationBin (op : BinOp) (a b : Int) (st : St) : Res :=
 /-- strict binary operators (`&&` and `||` are lazy and handled by `eval`) -/
 def binOp (op : BinOp) : Value → Value → St → Res
   | .int t1 a, .int t2 b, st =>
+    match op with
+    | .shl => shiftInt true t1 a b st
+    | .shr => shiftInt false t1 a b st
+    | _ =>
     match IntTy.unify t1 t2 with
     | some t => intBin op t a b st
     | none => .stuck "integer operands of different types"
@@ -460,6 +695,10 @@ def binOp (op : BinOp) : Value → Value → St → Res
     match op with
     | .eq => .val (.bool (a == b)) st
     | .ne => .val (.bool (a != b)) st
+    -- `& | ^` on `bool` (strict)
+    | .bitAnd => .val (.bool (a && b)) st
+    | .bitOr => .val (.bool (a || b)) st
+    | .bitXor => .val (.bool (a != b)) st
     | _ => .stuck "bool operator without a rule"
   -- `#[derive(PartialEq)]` on a field-less enum compares the variants
   | .enumv p [], .enumv q [], st =>
@@ -469,8 +708,16 @@ def binOp (op : BinOp) : Value → Value → St → Res
     | _ => .stuck "enum operator without a rule"
   | _, _, _ => .stuck "binary operator: no rule for these operand types"
 
+/-- see `Ext.litFallback`: two integer operands of unknown type take the fallback type, if there is one -/
+def litFallback (fb : Option IntTy) (a b : Value) : Value × Value :=
+  match fb, a, b with
+  | some t, .int .infer x, .int .infer y => (.int t x, .int t y)
+  | _, _, _ => (a, b)
+
 def unOp : UnOp → Value → St → Res
   | .ref, v, st => .val v st                       -- shared references are transparent
+  -- `*p` on an object of an extension dictionary is the dictionary's business (`eval` asks it first)
+  | .deref, .ext _ _, _ => .stuck "deref of an extension object without a rule"
   | .deref, v, st => .val v st
   | .refMut, _, _ => .stuck "&mut borrow"
   -- `-x`: checked like `0 - x` (i64::MIN panics); on an untyped literal it is the negative literal
@@ -479,23 +726,33 @@ def unOp : UnOp → Value → St → Res
     else if t.signed = true then chkInt t (-a) st else .stuck "negation of an unsigned integer"
   | .neg, .f64 a, st => .val (.f64 (-a)) st
   | .not, .bool b, st => .val (.bool (!b)) st
+  -- `!x` on an integer flips every bit: `MAX - x` (unsigned), `-x - 1` (signed)
+  | .not, .int t a, st =>
+    if t = .infer then .stuck "arithmetic on integer literals of unknown type" else .val (.int t (t.hi + t.lo - a)) st
   | _, _, _ => .stuck "unary operator: no rule for this operand type"
 
-/-- `e as T` -/
-def castTo (ty : String) : Value → St → Res
+/-- `e as T`; `none` = no built-in rule (the extension dictionary is asked) -/
+def primCast (discr : List (String × List (String × Int))) (ty : String) : Value → St → Option Res
   | .int _ a, st =>
     match IntTy.ofName ty with
     -- integer → integer: wrap to the target width
-    | some t => .val (.int t (wrapInt t a)) st
+    | some t => some (.val (.int t (wrapInt t a)) st)
     -- integer → f64: nearest double (`F64.ofInt`); exact for u32 and narrower
-    | none => if ty = "f64" then .val (.f64 (F64.ofInt a)) st else .stuck "cast without a rule"
+    | none => if ty = "f64" then some (.val (.f64 (F64.ofInt a)) st) else none
   -- f64 → i64 / u64: truncate toward zero, saturate at the bounds (Rust ≥ 1.45)
   | .f64 a, st =>
-    if ty = "i64" then .val (.int .i64 (F64.castI64 a)) st
-    else if ty = "u64" then .val (.int .u64 (F64.castU64 a)) st
-    else if ty = "f64" then .val (.f64 a) st
-    else .stuck "cast without a rule"
-  | _, _ => .stuck "cast without a rule"
+    if ty = "i64" then some (.val (.int .i64 (F64.castI64 a)) st)
+    else if ty = "u64" then some (.val (.int .u64 (F64.castU64 a)) st)
+    else if ty = "f64" then some (.val (.f64 a) st)
+    else none
+  -- `bool as <int>`: 0 / 1
+  | .bool b, st => (IntTy.ofName ty).map fun t => .val (.int t (if b then 1 else 0)) st
+  -- field-less enum → integer: its discriminant (table `enumDiscr`), wrapped to the target width
+  | .enumv p [], st =>
+    match IntTy.ofName ty, discrOf discr p with
+    | some t, some d => some (.val (.int t (wrapInt t d)) st)
+    | _, _ => none
+  | _, _ => none
 
 /-! ### 2.6 functions and methods of the libraries -/
 
@@ -533,6 +790,143 @@ def primCall : String → List Value → St → Option Res
   -- clock_state_fsm.rs: `ShmClockState<Unknown>::default()`, boxed: the FSM starts in Unknown
   | "Box<ShmClockState>::default", [], st => some (.val (.fsm .unknown) st)
   | _, _, _ => none
+
+def allIntTys : List IntTy := [.u8, .u16, .u32, .u64, .usize, .i8, .i16, .i32, .i64, .isize, .u128, .i128]
+
+/-- std: `impl From<A> for B` exists for integer types exactly when every `A` is a `B` (lossless);
+    `impl TryFrom<A> for B` exists for all pairs and is `Ok` iff the value is in range (the error value
+    is opaque).  `T::from(x)` / `T::try_from(x)` for the integer types that `primCall` does not list.
+    (`usize`/`isize`: 64-bit target; std only has the `From` impls that hold on every target, so a
+    program that compiles uses fewer than are accepted here.) -/
+def intConvAt (name : String) (s : IntTy) (a : Int) (st : St) : List IntTy → Option Res
+  | [] => none
+  | t :: ts =>
+    match name == t.name ++ "::from", name == t.name ++ "::try_from" with
+    | true, _ =>
+      (if s ≠ .infer ∧ t.lo ≤ s.lo ∧ s.hi ≤ t.hi then some (.val (.int t a) st) else none)
+    | false, true =>
+      (if s = .infer then none
+       else if t.lo ≤ a ∧ a ≤ t.hi then some (.val (.enumv "Ok" [.int t a]) st)
+       else some (.val (.enumv "Err" [.opaque "TryFromIntError"]) st))
+    | false, false => intConvAt name s a st ts
+
+def intConvCall (name : String) : List Value → St → Option Res
+  | [.int s a], st => intConvAt name s a st allIntTys
+  | _, _ => none
+
+/-- integer methods with one integer operand of the same type -/
+def intMethod (m : String) (u : IntTy) (a b : Int) (st : St) : Option Res :=
+  match m with
+  -- std: `wrapping_*`: the result modulo 2^bits, never panics
+  | "wrapping_add" => some (.val (.int u (wrapInt u (a + b))) st)
+  | "wrapping_sub" => some (.val (.int u (wrapInt u (a - b))) st)
+  | "wrapping_mul" => some (.val (.int u (wrapInt u (a * b))) st)
+  -- std: `saturating_*`: the exact result clamped to the range of the type
+  | "saturating_add" => some (.val (.int u (clampInt u (a + b))) st)
+  | "saturating_sub" => some (.val (.int u (clampInt u (a - b))) st)
+  | "saturating_mul" => some (.val (.int u (clampInt u (a * b))) st)
+  -- std: `overflowing_*`: (wrapped result, did it overflow)
+  | "overflowing_add" =>
+    some (.val (.tuple [.int u (wrapInt u (a + b)), .bool (decide (¬ (u.lo ≤ a + b ∧ a + b ≤ u.hi)))]) st)
+  | "overflowing_sub" =>
+    some (.val (.tuple [.int u (wrapInt u (a - b)), .bool (decide (¬ (u.lo ≤ a - b ∧ a - b ≤ u.hi)))]) st)
+  | "overflowing_mul" =>
+    some (.val (.tuple [.int u (wrapInt u (a * b)), .bool (decide (¬ (u.lo ≤ a * b ∧ a * b ≤ u.hi)))]) st)
+  -- std: `Ord::min` / `Ord::max`
+  | "min" => some (.val (.int u (if a ≤ b then a else b)) st)
+  | "max" => some (.val (.int u (if a ≤ b then b else a)) st)
+  -- std: `abs_diff`: |a - b| in the unsigned type of the same width (always fits)
+  | "abs_diff" => some (.val (.int u.toUnsigned (if a ≤ b then b - a else a - b)) st)
+  | _ => none
+
+/-- methods of `Option` / `Result` / integers / lists that take no closure. `none` = no rule here. -/
+def primMethod2 : Value → String → List Value → St → Option Res
+  | .int t a, "pow", [.int t' b], st =>
+    -- std: `pow(self, exp: u32)`; with overflow checks an unrepresentable result panics
+    if t = .infer ∨ ¬ (t' = .u32 ∨ t' = .infer) ∨ b < 0 then none else some (chkInt t (a ^ b.toNat) st)
+  -- `x.into()` between integer types exists only where it is lossless (else the program does not
+  -- compile); the target type comes from the context, like that of an unsuffixed literal
+  | .int t a, "into", [], st => if t = .infer then none else some (.val (.int .infer a) st)
+  | .int t a, m, [.int t' b], st =>
+    match IntTy.unify t t' with
+    | some .infer | none => none
+    | some u => intMethod m u a b st
+  -- std `Option` / `Result`
+  | .enumv "Some" [_], "is_some", [], st => some (.val (.bool true) st)
+  | .enumv "None" [], "is_some", [], st => some (.val (.bool false) st)
+  | .enumv "Some" [_], "is_none", [], st => some (.val (.bool false) st)
+  | .enumv "None" [], "is_none", [], st => some (.val (.bool true) st)
+  | .enumv "Ok" [_], "is_ok", [], st => some (.val (.bool true) st)
+  | .enumv "Err" [_], "is_ok", [], st => some (.val (.bool false) st)
+  | .enumv "Ok" [_], "is_err", [], st => some (.val (.bool false) st)
+  | .enumv "Err" [_], "is_err", [], st => some (.val (.bool true) st)
+  -- `unwrap` / `expect(msg)` panic on `None` / `Err`
+  | .enumv "Some" [v], "unwrap", [], st => some (.val v st)
+  | .enumv "Ok" [v], "unwrap", [], st => some (.val v st)
+  | .enumv "None" [], "unwrap", [], _ => some .panic
+  | .enumv "Err" [_], "unwrap", [], _ => some .panic
+  | .enumv "Some" [v], "expect", [_], st => some (.val v st)
+  | .enumv "Ok" [v], "expect", [_], st => some (.val v st)
+  | .enumv "None" [], "expect", [_], _ => some .panic
+  | .enumv "Err" [_], "expect", [_], _ => some .panic
+  | .enumv "Err" [e], "unwrap_err", [], st => some (.val e st)
+  | .enumv "Ok" [_], "unwrap_err", [], _ => some .panic
+  | .enumv "Some" [v], "unwrap_or", [_], st => some (.val v st)
+  | .enumv "Ok" [v], "unwrap_or", [_], st => some (.val v st)
+  | .enumv "None" [], "unwrap_or", [d], st => some (.val d st)
+  | .enumv "Err" [_], "unwrap_or", [d], st => some (.val d st)
+  -- `unwrap_or_default` on `None`/`Err` needs the static type: no rule
+  | .enumv "Some" [v], "unwrap_or_default", [], st => some (.val v st)
+  | .enumv "Ok" [v], "unwrap_or_default", [], st => some (.val v st)
+  | .enumv "Ok" [v], "ok", [], st => some (.val (.enumv "Some" [v]) st)
+  | .enumv "Err" [_], "ok", [], st => some (.val (.enumv "None" []) st)
+  | .enumv "Ok" [_], "err", [], st => some (.val (.enumv "None" []) st)
+  | .enumv "Err" [e], "err", [], st => some (.val (.enumv "Some" [e]) st)
+  | .enumv "Some" [v], "ok_or", [_], st => some (.val (.enumv "Ok" [v]) st)
+  | .enumv "None" [], "ok_or", [e], st => some (.val (.enumv "Err" [e]) st)
+  -- arrays / `Vec` / slices
+  | .list vs, "len", [], st => some (.val (.int .usize vs.length) st)
+  | .list vs, "is_empty", [], st => some (.val (.bool vs.isEmpty) st)
+  | .list vs, "iter", [], st => some (.val (.list vs) st)
+  | .list vs, "into_iter", [], st => some (.val (.list vs) st)
+  | .list vs, "to_vec", [], st => some (.val (.list vs) st)
+  | _, _, _, _ => none
+
+/-- what a method of `Option` / `Result` that takes a closure does with its receiver -/
+inductive ClosurePlan
+  /-- the closure is not called; this is the result -/
+  | done (v : Value)
+  /-- the closure is called on `args`; the result is `wrap` of its value (`wrap = none`: the value itself) -/
+  | app (args : List Value) (wrap : Option String)
+
+/-- std: `ok_or_else`, `map_err`, `map`, `unwrap_or_else`, `and_then`, `or_else` (by receiver) -/
+def closureMethod : Value → String → Option ClosurePlan
+  | .enumv "Some" [v], "ok_or_else" => some (.done (.enumv "Ok" [v]))
+  | .enumv "None" [], "ok_or_else" => some (.app [] (some "Err"))
+  | .enumv "Ok" [v], "map_err" => some (.done (.enumv "Ok" [v]))
+  | .enumv "Err" [e], "map_err" => some (.app [e] (some "Err"))
+  | .enumv "Ok" [v], "map" => some (.app [v] (some "Ok"))
+  | .enumv "Err" [e], "map" => some (.done (.enumv "Err" [e]))
+  | .enumv "Some" [v], "map" => some (.app [v] (some "Some"))
+  | .enumv "None" [], "map" => some (.done (.enumv "None" []))
+  | .enumv "Some" [v], "unwrap_or_else" => some (.done v)
+  | .enumv "Ok" [v], "unwrap_or_else" => some (.done v)
+  | .enumv "None" [], "unwrap_or_else" => some (.app [] none)
+  | .enumv "Err" [e], "unwrap_or_else" => some (.app [e] none)
+  | .enumv "Some" [v], "and_then" => some (.app [v] none)
+  | .enumv "Ok" [v], "and_then" => some (.app [v] none)
+  | .enumv "None" [], "and_then" => some (.done (.enumv "None" []))
+  | .enumv "Err" [e], "and_then" => some (.done (.enumv "Err" [e]))
+  | .enumv "Some" [v], "or_else" => some (.done (.enumv "Some" [v]))
+  | .enumv "Ok" [v], "or_else" => some (.done (.enumv "Ok" [v]))
+  | .enumv "None" [], "or_else" => some (.app [] none)
+  | .enumv "Err" [e], "or_else" => some (.app [e] none)
+  | _, _ => none
+
+def wrapWith (w : Option String) (v : Value) : Value :=
+  match w with
+  | some c => .enumv c [v]
+  | none => v
 
 /-- methods of library types. `none` = not a library method (look in `fns`). -/
 def primMethod (ctx : Ctx) : Value → String → List Value → St → Option Res
@@ -580,26 +974,65 @@ def primMethod (ctx : Ctx) : Value → String → List Value → St → Option R
   | .fsm s, "value", [], st => some (.val (statusValue s) st)
   -- `ShmWrite::write(&mut self, &ClockErrorBound)`: the effect that is logged
   | .writer, "write", [r], st => some (.val .unit { st with log := st.log ++ [r] })
-  | _, _, _, _ => none
+  | v, m, args, st => primMethod2 v m args st
 
 /-- macros: the `tracing` logging macros have no effect on the values computed here (their arguments
-    are only formatted); `panic!` and friends panic; `format!` yields an opaque `String`. -/
-def primMacro (name : String) (st : St) : Res :=
-  match name with
-  | "debug" | "info" | "warn" | "error" | "trace"
-  | "tracing::debug" | "tracing::info" | "tracing::warn" | "tracing::error" | "tracing::trace" =>
-    .val .unit st
-  | "panic" | "unreachable" | "unimplemented" | "todo" => .panic
-  | "format" => .val (.opaque "String") st
-  | _ => .stuck "macro without a rule"
+    are only formatted); `panic!` and friends panic; `format!` yields an opaque `String`.  `args` are the
+    evaluated arguments of an `Expr.macroArgs` (the translator keeps the condition of `assert!`, the two
+    operands of `assert_eq!`; `matches!` and `vec!` arrive as one argument that is their expansion).
+    `debug_assert*` are active (dev profile). `none` = no built-in rule. -/
+def primMacro (name : String) (args : List Value) (st : St) : Option Res :=
+  match name, args with
+  | "debug", _ | "info", _ | "warn", _ | "error", _ | "trace", _
+  | "tracing::debug", _ | "tracing::info", _ | "tracing::warn", _ | "tracing::error", _ | "tracing::trace", _ =>
+    some (.val .unit st)
+  | "panic", _ | "unreachable", _ | "unimplemented", _ | "todo", _ => some .panic
+  | "format", _ => some (.val (.opaque "String") st)
+  | "assert", [.bool b] | "debug_assert", [.bool b] => some (if b = true then .val .unit st else .panic)
+  | "assert_eq", [a, b] | "debug_assert_eq", [a, b] =>
+    some ((binOp .eq a b st).bind fun v st =>
+      match v with
+      | .bool c => if c = true then .val .unit st else .panic
+      | _ => .stuck "assert_eq: comparison is not a bool")
+  | "assert_ne", [a, b] | "debug_assert_ne", [a, b] =>
+    some ((binOp .ne a b st).bind fun v st =>
+      match v with
+      | .bool c => if c = true then .val .unit st else .panic
+      | _ => .stuck "assert_ne: comparison is not a bool")
+  | "matches", [v] => some (.val v st)
+  | "vec", [v] => some (.val v st)
+  | _, _ => none
+
+/-! ### 2.8 extension dictionaries
+
+  `Ext` (defined in part 1) — see `Rs/DictDemo.lean` for a worked example.  The functions below are the
+  only places where a hook is consulted, always as the LAST rule. -/
+
+def runMacro (ctx : Ctx) (name : String) (args : List Value) (st : St) : Res :=
+  firstRule (primMacro name args st)
+    (firstRule (ctx.ext.macroCall ctx.inputs name args st) (.stuck "macro without a rule"))
+
+def runCast (ctx : Ctx) (ty : String) (v : Value) (st : St) : Res :=
+  firstRule (primCast ctx.enumDiscr ty v st)
+    (firstRule (ctx.ext.cast ctx.inputs ty v st) (.stuck "cast without a rule"))
+
+def runField (ctx : Ctx) (v : Value) (name : String) (st : St) : Res :=
+  match fieldOf v name with
+  | some w => .val w st
+  | none => orStuck "field access without a rule" (ctx.ext.fieldOf v name) fun w => .val w st
+
+def runUnary (ctx : Ctx) (op : UnOp) (v : Value) (st : St) : Res :=
+  match op, v with
+  | .deref, .ext tag args =>
+    firstRule (ctx.ext.deref ctx.inputs (.ext tag args) st) (.stuck "deref of an extension object without a rule")
+  | _, _ => unOp op v st
 
 /-! ## 3. Evaluation -/
 
 /-- drop the variables a block (or a match arm) introduced: back to `n` variables -/
 def St.popTo (st : St) (n : Nat) : St := { st with env := st.env.drop (st.env.length - n) }
 
-def Res.popTo (r : Res) (n : Nat) : Res :=
-  r.on (fun v st => .val v (st.popTo n)) (fun v st => .ret v (st.popTo n))
+def Res.popTo (r : Res) (n : Nat) : Res := r.mapSt fun st => st.popTo n
 
 def rangeEnd (e : Bool × Lit) : Option Int :=
   match e with
@@ -647,7 +1080,15 @@ def matchPat : Nat → String → Pat → Value → Option (Bool × List (String
       if p = canon selfTy segs then matchPats n selfTy ps args else some (false, [])
     | _ => none
   | n + 1, selfTy, .ref p, v => matchPat n selfTy p v
-  | _ + 1, _, .struct _ _ _, _ => none
+  -- `S { f: p, .. }` on a struct value of that name (another struct type does not compile: no rule);
+  -- `libc::timespec { tv_sec, tv_nsec }` on a `ctimespec`
+  | n + 1, selfTy, .struct segs fps _, v =>
+    match v with
+    | .struct name fs =>
+      if name = (if lastSeg segs = "Self" then selfTy else lastSeg segs) then matchFields n selfTy fps (.struct name fs)
+      else none
+    | .ctimespec s ns => if lastSeg segs = "timespec" then matchFields n selfTy fps (.ctimespec s ns) else none
+    | _ => none
   | _ + 1, _, .other _, _ => none
 where
   matchPats : Nat → String → List Pat → List Value → Option (Bool × List (String × Value))
@@ -659,6 +1100,16 @@ where
       | _, _ => none
     | _ + 1, _, [], _ :: _ => none
     | _ + 1, _, _ :: _, [] => none
+  matchFields : Nat → String → List (String × Pat) → Value → Option (Bool × List (String × Value))
+    | 0, _, _, _ => none
+    | _ + 1, _, [], _ => some (true, [])
+    | n + 1, selfTy, (f, p) :: fps, v =>
+      match fieldOf v f with
+      | none => none
+      | some w =>
+        match matchPat n selfTy p w, matchFields n selfTy fps v with
+        | some (b, bs), some (c, cs) => some (b && c, cs ++ bs)
+        | _, _ => none
 
 /-- a single-segment path may be a local variable -/
 def localVar (env : List (String × Value)) : List String → Option Value
@@ -674,6 +1125,12 @@ def readPlace : Nat → Expr → St → Option Value
     match readPlace n e st with
     | some v => fieldOf v name
     | none => none
+  | n + 1, .tupleIdx e i, st =>
+    match readPlace n e st with
+    | some (.tuple vs) => listGet vs i
+    | _ => none
+  -- `*x` / `(&mut x)` as a place: references are transparent
+  | n + 1, .unary .deref e, st => readPlace n e st
   | _ + 1, _, _ => none
 
 /-- assignment to a place expression -/
@@ -690,6 +1147,14 @@ def writePlace : Nat → Expr → Value → St → Option St
       | some v' => writePlace n e v' st
       | none => none
     | none => none
+  | n + 1, .tupleIdx e i, w, st =>
+    match readPlace n e st with
+    | some (.tuple vs) =>
+      match listSet vs i w with
+      | some vs' => writePlace n e (.tuple vs') st
+      | none => none
+    | _ => none
+  | n + 1, .unary .deref e, w, st => writePlace n e w st
   | _ + 1, _, _, _ => none
 
 /-- candidate keys in `fns` for a call of the path `segs` with arguments `args`:
@@ -710,6 +1175,20 @@ def lookupFn (fns : List (String × FnDecl)) : List String → Option FnDecl
   | k :: ks => match fns.lookup k with
     | some d => some d
     | none => lookupFn fns ks
+
+/-- the method `m` of a user-defined type in `fns`: `x.m(..)` on a struct value of type `T`, or on a
+    variant of an enum `T` of the generated tables, is `T::m` -/
+def methodDecl (fns : List (String × FnDecl)) (enums : List (String × List (String × Nat))) :
+    Value → String → Option FnDecl
+  | .struct tn _, m => lookupFn fns [tn ++ "::" ++ m]
+  | .enumv p args, m =>
+    match userTypeName (.enumv p args) with
+    | some tn => lookupFn fns [tn ++ "::" ++ m]
+    | none =>
+      match enumOfVariant enums p with
+      | some tn => lookupFn fns [tn ++ "::" ++ m]
+      | none => none
+  | _, _ => none
 
 /-- bind the arguments to the parameter patterns (ascribing the declared types) -/
 def bindParams : Nat → String → List (Pat × String) → List Value → Option (List (String × Value))
@@ -750,9 +1229,11 @@ def eval : Nat → Ctx → Frame → Expr → St → Res
           match enumArity ctx.enums fr.selfTy segs with
           | some 0 => .val (.enumv (canon fr.selfTy segs) []) st
           | some _ => .stuck "enum variant with fields used as a value"
-          | none => orStuck "path without a rule" (primPath (canon fr.selfTy segs)) fun v => .val v st
-    | .field e name =>
-      (eval n ctx fr e st).bind fun v st => orStuck "field access without a rule" (fieldOf v name) fun w => .val w st
+          | none =>
+            match primPath (canon fr.selfTy segs) with
+            | some v => .val v st
+            | none => orStuck "path without a rule" (ctx.ext.path (canon fr.selfTy segs)) fun v => .val v st
+    | .field e name => (eval n ctx fr e st).bind fun v st => runField ctx v name st
     | .tupleIdx e i =>
       (eval n ctx fr e st).bind fun v st =>
         match v with
@@ -769,30 +1250,45 @@ def eval : Nat → Ctx → Frame → Expr → St → Res
             | some k => if k = vs.length then .val (.enumv (canon fr.selfTy segs) vs) st
                         else .stuck "enum constructor: wrong number of arguments"
             | none =>
-            orStuck "call of an unknown function" (lookupFn ctx.fns (callKeys fr segs vs)) fun d =>
+            match lookupFn ctx.fns (callKeys fr segs vs) with
+            | some d =>
               (callDecl n ctx d .unit vs st).bind fun rv st =>
                 match rv with
                 | .tuple [v, _] => .val v st
                 | _ => .stuck "internal: callDecl result"
+            | none =>
+              -- the remaining built-in rules: integer conversions, `size_of::<T>()`; then the dictionary
+              firstRule (intConvCall (canon fr.selfTy segs) vs st)
+                (match vs, sizeOf ctx.sizes (lastSeg segs) with
+                 | [], some k => .val (.int .usize k) st
+                 | _, _ =>
+                   firstRule (ctx.ext.call ctx.inputs (canon fr.selfTy segs) vs st)
+                     (.stuck "call of an unknown function"))
         | _ => .stuck "internal: evalList result"
+    -- a method of `Option` / `Result` that takes a closure (std: `ok_or_else`, `map_err`, `map`, ...).
+    -- The closure is applied by binding its parameters in the current environment (a closure may read the
+    -- enclosing variables; assignments to them inside the closure are lost when its scope is popped —
+    -- no rule is needed for the `FnMut` case in the translated files); `return` inside returns from the
+    -- closure.
+    | .mcall recv m [.closure ps body] =>
+      (eval n ctx fr recv st).bind fun rv st =>
+        match closureMethod rv m with
+        | some (.done v) => .val v st
+        | some (.app args w) =>
+          orStuck "closure: arguments do not fit the parameters" (matchPat.matchPats n fr.selfTy ps args) fun (_, bs) =>
+            (((eval n ctx fr body { st with env := bs ++ st.env }).on (fun v st => .val v st) (fun v st => .val v st)).popTo
+              st.env.length).bind fun v st => .val (wrapWith w v) st
+        | none => .stuck "method with a closure argument: no rule"
     | .mcall recv m args =>
       (eval n ctx fr recv st).bind fun rv st =>
-        match m, args with
-        -- std: `Option::ok_or_else(self, err: F)`: `Some(v)` ↦ `Ok(v)`, `None` ↦ `Err(err())`
-        | "ok_or_else", [.closure [] body] =>
-          match rv with
-          | .enumv "Some" [v] => .val (.enumv "Ok" [v]) st
-          | .enumv "None" [] => (eval n ctx fr body st).bind fun e st => .val (.enumv "Err" [e]) st
-          | _ => .stuck "ok_or_else on a non-Option"
-        | _, _ =>
         (evalList n ctx fr args st).bind fun av st =>
           match av with
           | .tuple vs =>
             match primMethod ctx rv m vs st with
             | some r => r
             | none =>
-              orStuck "method call on a value without methods" (userTypeName rv) fun tn =>
-                orStuck "call of an unknown method" (lookupFn ctx.fns [tn ++ "::" ++ m]) fun d =>
+              match methodDecl ctx.fns ctx.enums rv m with
+              | some d =>
                   if d.self = .none then .stuck "method call of an associated function" else
                   (callDecl n ctx d rv vs st).bind fun res st =>
                     match res with
@@ -803,8 +1299,10 @@ def eval : Nat → Ctx → Frame → Expr → St → Res
                           fun st' => .val v st'
                       else .val v st
                     | _ => .stuck "internal: callDecl result"
+              | none =>
+                firstRule (ctx.ext.method ctx.inputs rv m vs st) (.stuck "method call without a rule")
           | _ => .stuck "internal: evalList result"
-    | .unary op e => (eval n ctx fr e st).bind fun v st => unOp op v st
+    | .unary op e => (eval n ctx fr e st).bind fun v st => runUnary ctx op v st
     | .binary .and a b =>
       -- `&&` evaluates its right operand only if the left one is true
       (eval n ctx fr a st).bind fun va st =>
@@ -826,54 +1324,138 @@ def eval : Nat → Ctx → Frame → Expr → St → Res
               | _ => .stuck "|| on a non-bool"
         | _ => .stuck "|| on a non-bool"
     | .binary op a b =>
-      (eval n ctx fr a st).bind fun va st => (eval n ctx fr b st).bind fun vb st => binOp op va vb st
+      (eval n ctx fr a st).bind fun va st => (eval n ctx fr b st).bind fun vb st =>
+        binOp op (litFallback ctx.ext.litFallback va vb).1 (litFallback ctx.ext.litFallback va vb).2 st
     | .assign lhs rhs =>
       (eval n ctx fr rhs st).bind fun v st =>
-        orStuck "assignment to something that is not a place" (writePlace n lhs v st) fun st' => .val .unit st'
+        orStuck "assignment: literal does not fit the type of the place" (adoptTy (readPlace n lhs st) v) fun v' =>
+          orStuck "assignment to something that is not a place" (writePlace n lhs v' st) fun st' => .val .unit st'
     | .assignOp op lhs rhs =>
       -- `a op= b` on primitive types: `a = a op b`, with the overflow check of `op`
       (eval n ctx fr rhs st).bind fun v st =>
         orStuck "compound assignment to something that is not a place" (readPlace n lhs st) fun old =>
-          (binOp op old v st).bind fun w st =>
+          (binOp op (litFallback ctx.ext.litFallback old v).1 (litFallback ctx.ext.litFallback old v).2 st).bind fun w st =>
             orStuck "compound assignment to something that is not a place" (writePlace n lhs w st)
               fun st' => .val .unit st'
-    | .cast e ty => (eval n ctx fr e st).bind fun v st => castTo ty v st
+    | .cast e ty => (eval n ctx fr e st).bind fun v st => runCast ctx ty v st
     | .ifte c thn els =>
-      (eval n ctx fr c st).bind fun vc st =>
+      -- the condition may bind variables (`if let`): they are in scope in the then-branch only, and
+      -- everything is popped back to the environment before the condition
+      (eval n ctx fr c st).bind fun vc st' =>
         match vc with
         | .bool b =>
-          if b = true then (evalBlock n ctx fr thn st).popTo st.env.length
+          if b = true then (evalBlock n ctx fr thn st').popTo st.env.length
           else match els with
-            | some e => eval n ctx fr e st
-            | none => .val .unit st
+            | some e => eval n ctx fr e st'
+            | none => .val .unit st'
         | _ => .stuck "if on a non-bool"
+    -- `let PAT = e` as a condition: true iff the value matches, and then the bindings are pushed
+    | .letCond pat e =>
+      (eval n ctx fr e st).bind fun v st =>
+        orStuck "if let: pattern without a rule" (matchPat n fr.selfTy pat v) fun (b, bs) =>
+          if b = true then .val (.bool true) { st with env := bs ++ st.env } else .val (.bool false) st
     | .matchE scrut arms => (eval n ctx fr scrut st).bind fun v st => evalArms n ctx fr arms v st
     | .block ss => (evalBlock n ctx fr ss st).popTo st.env.length
     | .ret none => .ret .unit st
     | .ret (some e) => (eval n ctx fr e st).bind fun v st => .ret v st
     | .tuple es => evalList n ctx fr es st
-    | .structLit segs fields none =>
+    | .structLit segs fields rest =>
       (evalFields n ctx fr fields st).bind fun fv st =>
         match fv with
         | .struct _ fs =>
           let last := if lastSeg segs = "Self" then fr.selfTy else lastSeg segs
-          orStuck "struct literal without a rule" (mkStruct ctx.structs (canon fr.selfTy segs) last fs)
-            fun v => .val v st
+          match rest with
+          | none =>
+            orStuck "struct literal without a rule" (mkStruct ctx.structs (canon fr.selfTy segs) last fs)
+              fun v => .val v st
+          | some b =>
+            -- `S { f: v, ..base }`: `base` is a value of the same struct type
+            (eval n ctx fr b st).bind fun bv st =>
+              match bv with
+              | .struct name bfs =>
+                if name = last then
+                  orStuck "struct literal without a rule" (mkStruct ctx.structs (canon fr.selfTy segs) last fs)
+                    fun v => match v with
+                      | .struct _ fs' => .val (.struct name (updateFields bfs fs')) st
+                      | _ => .stuck "struct update syntax on a value that is not a struct"
+                else .stuck "struct update syntax: base of another type"
+              | _ => .stuck "struct update syntax on a value that is not a struct"
         | _ => .stuck "internal: evalFields result"
-    | .structLit _ _ (some _) => .stuck "struct update syntax"
     | .try_ e =>
       -- `e?`: unwrap `Ok`/`Some`, return `Err`/`None` from the function. The error is converted with
-      -- `From::from`, which is assumed to be the identity (same error type on both sides).
+      -- `From::from`, which is assumed to be the identity (same error type on both sides) unless the
+      -- extension dictionary says otherwise (`Ext.errFrom`).
       (eval n ctx fr e st).bind fun v st =>
         match v with
         | .enumv "Ok" [x] => .val x st
-        | .enumv "Err" [x] => .ret (.enumv "Err" [x]) st
+        | .enumv "Err" [x] => .ret (.enumv "Err" [(ctx.ext.errFrom fr.ret x).getD x]) st
         | .enumv "Some" [x] => .val x st
         | .enumv "None" [] => .ret (.enumv "None" []) st
         | _ => .stuck "? on a value that is neither a Result nor an Option"
     | .closure _ _ => .stuck "closure"
-    | .macro name _ => primMacro name st
+    | .macro name _ => runMacro ctx name [] st
+    | .macroArgs name _ args =>
+      (evalList n ctx fr args st).bind fun av st =>
+        match av with
+        | .tuple vs => runMacro ctx name vs st
+        | _ => .stuck "internal: evalList result"
+    -- loops: one unit of fuel per iteration (`evalWhile`, `evalFor`); `loop` is `while true`
+    | .whileE c body => evalWhile n ctx fr c body st
+    | .loopE body => evalWhile n ctx fr (.lit (.bool true)) body st
+    | .forE pat it body =>
+      (eval n ctx fr it st).bind fun iv st =>
+        orStuck "for: no rule to iterate over this value" (iterItems iv) fun items =>
+          evalFor n ctx fr pat body items st
+    -- `lo..hi` is `Range { start: lo, end: hi }`, `lo..=hi` is `RangeInclusive` (std::ops)
+    | .range (some lo) (some hi) incl =>
+      (eval n ctx fr lo st).bind fun a st => (eval n ctx fr hi st).bind fun b st =>
+        .val (.struct (if incl = true then "RangeInclusive" else "Range") [("end", b), ("start", a)]) st
+    | .range _ _ _ => .stuck "half-open range"
+    | .breakE none => .brk .unit st
+    | .breakE (some e) => (eval n ctx fr e st).bind fun v st => .brk v st
+    | .continueE => .cont st
+    -- `a[i]` on an array / `Vec` / slice: bounds-checked (panic)
+    | .index e i =>
+      (eval n ctx fr e st).bind fun v st => (eval n ctx fr i st).bind fun iv st =>
+        match v, iv with
+        | .list vs, .int _ k => if k < 0 then .stuck "negative index" else orPanic (listGet vs k.toNat) fun w => .val w st
+        | _, _ => .stuck "index: no rule for these operands"
+    | .array es =>
+      (evalList n ctx fr es st).bind fun av st =>
+        match av with
+        | .tuple vs => .val (.list vs) st
+        | _ => .stuck "internal: evalList result"
+    | .repeatE e k =>
+      (eval n ctx fr e st).bind fun v st => (eval n ctx fr k st).bind fun kv st =>
+        match kv with
+        | .int _ k => if k < 0 then .stuck "negative array length" else .val (.list (List.replicate k.toNat v)) st
+        | _ => .stuck "array length is not an integer"
     | .other _ => .stuck "expression without a rule"
+
+/-- `while c { body }` (and `while let`, `loop`): evaluate the condition; if it holds run the body in
+    the environment the condition left (an `if let`-style condition binds variables), pop back to the
+    environment before the condition, and go on with ONE unit of fuel less.  The value of a loop that
+    ends because its condition is false is `()`; `break v` ends it with `v`. -/
+def evalWhile : Nat → Ctx → Frame → Expr → List Stmt → St → Res
+  | 0, _, _, _, _, _ => .stuck "out of fuel"
+  | n + 1, ctx, fr, c, body, st =>
+    (eval n ctx fr c st).bind fun vc st' =>
+      match vc with
+      | .bool b =>
+        if b = true then
+          ((evalBlock n ctx fr body st').popTo st.env.length).loopNext fun st'' => evalWhile n ctx fr c body st''
+        else .val .unit (st'.popTo st.env.length)
+      | _ => .stuck "while on a non-bool"
+
+/-- `for pat in items { body }`: one unit of fuel per item -/
+def evalFor : Nat → Ctx → Frame → Pat → List Stmt → List Value → St → Res
+  | 0, _, _, _, _, _, _ => .stuck "out of fuel"
+  | _ + 1, _, _, _, _, [], st => .val .unit st
+  | n + 1, ctx, fr, pat, body, v :: rest, st =>
+    -- the pattern of a `for` is irrefutable (compiler-checked): the test is ignored
+    orStuck "for: pattern without a rule" (matchPat n fr.selfTy pat v) fun (_, bs) =>
+      ((evalBlock n ctx fr body { st with env := bs ++ st.env }).popTo st.env.length).loopNext
+        fun st' => evalFor n ctx fr pat body rest st'
 
 /-- a list of expressions, left to right; the values come back as a `tuple` -/
 def evalList : Nat → Ctx → Frame → List Expr → St → Res
@@ -916,15 +1498,21 @@ def evalBlock : Nat → Ctx → Frame → List Stmt → St → Res
           orStuck "let: pattern without a rule" (matchPat n fr.selfTy pat v') fun (_, bs) =>
             evalBlock n ctx fr rest { st with env := bs ++ st.env }
     | .letS _ _ none _ => .stuck "let without initialiser"
-    | .letS _ _ _ (some _) => .stuck "let-else"
+    | .letS pat ty (some init) (some els) =>
+      -- `let PAT = e else { diverge };`: the else block must not complete normally (compiler-checked)
+      (eval n ctx fr init st).bind fun v st =>
+        orStuck "let: value does not fit the declared type" (ascribe (ty.getD "") v) fun v' =>
+          orStuck "let: pattern without a rule" (matchPat n fr.selfTy pat v') fun (b, bs) =>
+            if b = true then evalBlock n ctx fr rest { st with env := bs ++ st.env }
+            else (eval n ctx fr els st).bind fun _ _ => .stuck "let-else: the else block completed"
     | .constS name ty init =>
       (eval n ctx fr init { st with env := [] }).bind fun v st' =>
         orStuck "const: value does not fit the declared type" (ascribe ty v) fun v' =>
           evalBlock n ctx fr rest { st' with env := (name, v') :: st.env }
-    | .macro name _ => (primMacro name st).bind fun _ st => evalBlock n ctx fr rest st
+    | .macro name _ => (runMacro ctx name [] st).bind fun _ st => evalBlock n ctx fr rest st
     | .item _ => .stuck "nested item"
 
-/-- match arms, first match wins -/
+/-- match arms, first match wins; a guard is evaluated with the bindings of its pattern -/
 def evalArms : Nat → Ctx → Frame → List Arm → Value → St → Res
   | 0, _, _, _, _, _ => .stuck "out of fuel"
   | _ + 1, _, _, [], _, _ => .stuck "no match arm applies"
@@ -933,7 +1521,13 @@ def evalArms : Nat → Ctx → Frame → List Arm → Value → St → Res
       if b = true then
         match guard with
         | none => (eval n ctx fr body { st with env := bs ++ st.env }).popTo st.env.length
-        | some _ => .stuck "match guard"
+        | some g =>
+          (eval n ctx fr g { st with env := bs ++ st.env }).bind fun gv st' =>
+            match gv with
+            | .bool c =>
+              if c = true then (eval n ctx fr body st').popTo st.env.length
+              else evalArms n ctx fr rest v (st'.popTo st.env.length)
+            | _ => .stuck "match guard on a non-bool"
       else evalArms n ctx fr rest v st
 
 /-- call of a function of `fns`: a fresh environment with `self` and the parameters; the result is
@@ -945,8 +1539,8 @@ def callDecl : Nat → Ctx → FnDecl → Value → List Value → St → Res
       let env := if d.self = .none then bs else bs ++ [("self", self)]
       let finish := fun (v : Value) (st' : St) =>
         orStuck "call: result does not fit the declared type" (ascribe d.ret v) fun v' =>
-          .val (.tuple [v', (envGet st'.env "self").getD .unit]) { env := st.env, log := st'.log }
-      (evalBlock n ctx ⟨d.module, d.selfTy⟩ d.body { env := env, log := st.log }).on finish finish
+          .val (.tuple [v', (envGet st'.env "self").getD .unit]) { st' with env := st.env }
+      (evalBlock n ctx ⟨d.module, d.selfTy, d.ret⟩ d.body { st with env := env }).on finish finish
 
 end
 
@@ -965,21 +1559,28 @@ def Res.outcome : Res → Outcome
   | .ret _ _ => .stuck "internal: return escaped the function"
   | .panic => .panic
   | .stuck m => .stuck m
+  | .brk _ _ => .stuck "internal: break escaped the function"
+  | .cont _ => .stuck "internal: continue escaped the function"
 
-/-- fuel that suffices for every function of the translated files (depth, not length) -/
+/-- fuel that suffices for every loop-free function of the translated files (depth, not length) -/
 def defaultFuel : Nat := 200
 
-/-- run the function registered under `name` on `self` (use `.unit` without receiver) and `args` -/
-def run (ctx : Ctx) (name : String) (self : Value) (args : List Value) : Outcome :=
+/-- run the function registered under `name` on `self` (use `.unit` without receiver) and `args`, with
+    the given fuel: a function with a loop needs (number of iterations) + (depth), see `Proofs/RsLoop.lean` -/
+def runFuel (fuel : Nat) (ctx : Ctx) (name : String) (self : Value) (args : List Value) : Outcome :=
   match ctx.fns.lookup name with
   | none => .stuck "no such function"
-  | some d => (callDecl defaultFuel ctx d self args { env := [], log := [] }).outcome
+  | some d => (callDecl fuel ctx d self args { env := [], log := [], pos := 0 }).outcome
+
+/-- `runFuel` with the default fuel -/
+def run (ctx : Ctx) (name : String) (self : Value) (args : List Value) : Outcome :=
+  runFuel defaultFuel ctx name self args
 
 /-- evaluate one expression of a function of module `module` (impl self type `selfTy`) with the given
     local variables; used where the logic of interest is a sub-expression of a function that the
     interpreter cannot run as a whole (`main`) -/
 def evalIn (ctx : Ctx) (module selfTy : String) (e : Expr) (env : List (String × Value)) : Res :=
-  eval defaultFuel ctx ⟨module, selfTy⟩ e { env := env, log := [] }
+  eval defaultFuel ctx ⟨module, selfTy, ""⟩ e { env := env, log := [], pos := 0 }
 
 /-- initialiser of the first top-level `let <name> = ..;` of a function body -/
 def findLet (name : String) : List Stmt → Option Expr
@@ -988,5 +1589,14 @@ def findLet (name : String) : List Stmt → Option Expr
     match s with
     | .letS (.bind x) _ (some e) none => if x = name then some e else findLet name rest
     | _ => findLet name rest
+
+/-- condition and body of the first top-level `while` statement of a function body (the loop lemmas of
+    `Proofs/RsLoop.lean` are stated about these, so that a statement does not refer to a position) -/
+def findWhile : List Stmt → Option (Expr × List Stmt)
+  | [] => none
+  | s :: rest =>
+    match s with
+    | .expr (.whileE c b) _ => some (c, b)
+    | _ => findWhile rest
 
 end ClockBound.Rs
